@@ -261,6 +261,7 @@ class FnSpec:
         self.desugars = []
         self.etas = []
         self.default_from = None
+        self.within = None
         self.optional = False
         self.attr = None
         self.line = 0
@@ -350,6 +351,7 @@ def parse_vspec(path):
             fs.attr = d.get('attr')
             fs.nth = int(d['nth']) if 'nth' in d else None
             fs.default_from = d.get('default_from')
+            fs.within = d.get('within')
             fs.external_body = 'external_body' in flags
             fs.optional = 'optional' in flags
             i += 1
@@ -605,6 +607,12 @@ class Extractor:
         edits = []
         n = 0
         for a, b in params:
+            while a + 1 < b and toks[a].text == '#' and toks[a + 1].text == '[':
+                # D1: attribute on a parameter (proc-macro input such as #[starlark(require = pos)])
+                ae = match_close(toks, a + 1)
+                drops.append('D1 attr on a parameter of %s: %s' % (where, ' '.join(sig[toks[a].start:toks[ae].end].split())))
+                edits.append((toks[a].start, toks[ae].end, ''))
+                a = ae + 1
             if toks[a].text == '(':
                 pe = match_close(toks, a)
                 if pe + 1 < b and toks[pe + 1].text == ':':
@@ -619,6 +627,8 @@ class Extractor:
             # keep line structure of the signature: pad with the same number of newlines
             nl = sig[s0:s1].count('\n')
             sig = sig[:s0] + name + '\n' * nl + sig[s1:]
+        if not lets:
+            return sig, body
         btoks = lex(body)
         ins = btoks[0].end
         body = body[:ins] + ' ' + ' '.join(lets) + body[ins:]
@@ -1149,6 +1159,10 @@ class Extractor:
                             raise Undecided('free fn %s needs FILE ::' % fs.name)
                         sf = self.sf(fs.file)
                         items = sf.items
+                        if fs.within:
+                            # a fn item nested in the body of another fn (e.g. under #[starlark_module])
+                            outer = _select(items, 'fn', fs.within, what='in ' + sf.rel)
+                            items = sf.inner_items(outer)
                         qual = '%s::%s' % (os.path.splitext(os.path.basename(fs.file))[0], fs.name)
                     if fs.default_from and not [x for x in items if x.kind == 'fn' and x.name == fs.name]:
                         # A9: a method absent from a trait impl IS the trait's provided method (Rust semantics)
